@@ -125,6 +125,12 @@ pub const PROGRAMS: &[&str] = &[
     "i := mut 1; g := (v: int) -> int { i *= 2; i += v; return *i }; s := struct{ p := g(1), q := g(2), r := g(3), t := g(4) }; (s.p, s.q, s.r, s.t, *i)",
     "i := mut 0; n := () -> int { i += 1; return *i }; x := [struct{ a := n(), b := n() }, struct{ b := n(), a := n() }]; (x[0].a, x[0].b, x[1].a, x[1].b)",
     "i := mut 1; z := [1]; s := struct{ a := z[*i + 4], b := 10 / (*i - 1), c := 10 % (*i - 1) }; s",
+    // reductions over *nothing* whose operand has a union static type: the iterator itself has no
+    // element type, so the union decides which reduction (and which identity) is meant
+    "x := () -> () -> (bool, int) | () -> (bool, float) | () -> (bool, string) { return []~ }; (x() $+, x() $], x()())",
+    "x := () -> () -> (bool, float) | () -> (bool, int) { return []~ }; (x() $+, x() $*)",
+    "h := (g: () -> (bool, int) | () -> (bool, float) | () -> (bool, string)) -> any { return (g $+, g $]) }; (h([]~), h([1]~), h([\"a\"]~))",
+    "x := () -> () -> (bool, int) | () -> (bool, bool) { return []~ }; (x() $], x()())",
     // default values that contain a cell are fresh every time one is asked for
     "it := [1]~ ? mut int | string; (m, d) := it(); r := match d { c: mut int => { c += 10; *c }, => 0 - 1, }; (m, r)",
     "it := [mut 1][1:]~; (m, c) := it(); c += 10; (m, *c)",
